@@ -317,10 +317,27 @@ class VerusUnit:
         return self.unit + ("_" + self.variant if self.variant else "")
 
     def run(self, canaries=True, rlimit=None, timeout=900, threads=16):
+        """Runs the unit; when the verifier reports a method the unit does not name (a refactoring introduced a helper),
+        the helper is extracted automatically and the unit is run again (at most 3 rounds)."""
+        auto = set()
+        for _round in range(3):
+            res = self._run_once(canaries, rlimit, timeout, threads, auto)
+            missing = set()
+            for te in res.tool_errors:
+                m = re.search(r"no (?:method|function or associated item) named `(\w+)` found", te.get("message", ""))
+                if m:
+                    missing.add(m.group(1))
+            missing -= auto
+            if not missing:
+                return res
+            auto |= missing
+        return res
+
+    def _run_once(self, canaries, rlimit, timeout, threads, auto):
         t0 = time.time()
         res = UnitResult(self.unit, dict(self.config), os.path.join(self.outdir, self.stem() + ".rs"))
         try:
-            w = Weaver(self.repo, self.spec, self.config).run()
+            w = Weaver(self.repo, self.spec, self.config, auto_request=auto).run()
         except AnchorLoss as e:
             res.status = "undecided"
             res.undecided_reason = "anchor loss: %s" % e
@@ -332,7 +349,7 @@ class VerusUnit:
         text = w.text()
         self.weaver = w
         res.fn_infos = w.fns
-        res.dropped = w.dropped
+        res.dropped = w.dropped + ["auto-extracted helper: %s" % h for h in w.auto_helpers]
         res.rewrites = w.rewrite_log
         res.clause_labels = sorted({(l.fn, l.label) for l in w.out if l.label})
         res.label_tags = {(l.fn, l.label): tuple(l.tags) for l in w.out if l.label}
